@@ -275,7 +275,7 @@ func init() {
 			if r.Tier == "thorough" {
 				depth = 3
 			}
-			r.Rule = fmt.Sprintf("every program of 1..%d operations (24 operation kinds x their small argument menus) over a heap that starts with host, guest and a sibling sharing their buffers, each operation applied to any values already in the heap; x 3 residue-buffer shapes (len==cap, spare capacity, sub-slices of one buffer) x 3 feature-table shapes x {BasicSequence, seqio.GenBank}; invariant on every state: every heap value reads the same as when it entered the heap, and repeating a call gives the same result; distinct key = (shape, program); non-trivial = program touches a shared-buffer shape or has >=2 steps", depth)
+			r.Rule = fmt.Sprintf("every program of 1..%d operations (25 operation kinds x their small argument menus; plus every program one step longer over a 12-operation core menu applied to host, guest or the latest result) over a heap that starts with host, guest and a sibling sharing their buffers, each operation applied to any values already in the heap; x 3 residue-buffer shapes (len==cap, spare capacity, sub-slices of one buffer) x 3 feature-table shapes x {BasicSequence, seqio.GenBank}; invariant on every state: every heap value reads the same as when it entered the heap, and repeating a call gives the same result; distinct key = (shape, program); non-trivial = program touches a shared-buffer shape or has >=2 steps", depth)
 			var shapes []string
 			for _, b := range []string{"exact", "spare", "sub"} {
 				for _, t := range []string{"exact", "spare", "sub"} {
@@ -321,6 +321,42 @@ func init() {
 				}
 			}
 			rec(nil, 3)
+			// programs one step longer over a core menu: operations applied to the host, the guest or the latest result
+			{
+				core := []string{"insert", "delete", "slice", "slice-whole", "concat", "rotate", "reverse", "feature-insert", "with-features", "with-bytes", "repair", "embed"}
+				var rec3 func(cur []c11Step, heapLen int)
+				rec3 = func(cur []c11Step, heapLen int) {
+					if len(cur) == depth+1 {
+						programs = append(programs, append([]c11Step(nil), cur...))
+						return
+					}
+					for _, op := range core {
+						as := []int{0, heapLen - 1}
+						if heapLen-1 <= 2 {
+							as = []int{0, 1}
+						}
+						for _, a := range as {
+							bs := []int{0}
+							if c11Binary(op) {
+								bs = []int{1, heapLen - 1}
+								if heapLen-1 <= 2 {
+									bs = []int{1, 0}
+								}
+							}
+							for _, b := range bs {
+								p := 0
+								if op == "insert" || op == "embed" {
+									p = 2
+								}
+								rec3(append(cur, c11Step{Op: op, A: a, B: b, P: p}), heapLen+1)
+							}
+						}
+					}
+				}
+				if depth+1 <= 3 {
+					rec3(nil, 3)
+				}
+			}
 			r.Extra["programs"] = len(programs)
 			r.Extra["shapes"] = len(shapes)
 			r.Extra["depth"] = depth
